@@ -1139,6 +1139,11 @@ NewMarks(l) ==
   \cup (IF a = "Notify" /\ balancing /\ armed /\ ~clo.on /\ opc = "none" THEN {"notifyDuringDelay"} ELSE {})
   \cup (IF a = "Notify" /\ l.t = "api" /\ rpc["bus"] = "want" THEN {"apiWhileBusWaits"} ELSE {})
   \cup (IF a = "Ack" /\ storing THEN {"ackDuringStore"} ELSE {})
+  \cup (IF a = "SaveLock" /\ spc[l.t] = "want" /\ taking THEN {"saverQueuedBeforeTake"} ELSE {})
+  \cup (IF a = "Ack" /\ storing /\ "saverQueuedBeforeTake" \in marks /\ (\E u \in SaveThreads : spc[u] = "blocked") /\ l.i \in DOMAIN ctxs /\ ctxs[l.i].gen = cgen
+            /\ (offs[ctxs[l.i].vb] = NoOff \/ offs[ctxs[l.i].vb].seq < ctxs[l.i].off.seq)
+         THEN {"ackDuringStoreWhileSaverWaits"} ELSE {})
+  \cup (IF a = "Push" /\ l.x.k \in {"sys", "adv"} /\ storing /\ (\E u \in SaveThreads : spc[u] = "blocked") THEN {"nonDocDuringStoreWhileSaverWaits"} ELSE {})
   \cup (IF a = "Ack" /\ taking THEN {"ackAtTake"} ELSE {})
   \cup (IF a = "Ack" /\ l.i \in DOMAIN ctxs /\ offs[ctxs[l.i].vb] # NoOff /\ offs[ctxs[l.i].vb].seq > ctxs[l.i].off.seq
          THEN {"ackBelowPosition"} ELSE {})
